@@ -583,7 +583,7 @@ func (e *Engine) viewWriteBack(st *State, d Val) {
 		// the new token is the one determined by the array's elements after the write (pack is a function of the content)
 		cl := e.elemClass(at.Elem(), "", Leaves(at.Elem())[0])
 		row := e.tb.Select(e.H(st, cl, SArr2I), d.slArr())
-		tok = e.tb.App("pack_"+typeKey(vo.T), SInt, row, e.tb.Int(0), e.tb.Int(vo.N))
+		tok = e.tb.App("packr_"+typeKey(vo.T), SInt, row, e.tb.Int(0), e.tb.Int(vo.N))
 	}
 	px := vo.px
 	e.storePx(st, &px, vo.T, Val{T: []*Term{tok}})
